@@ -133,7 +133,7 @@ def eval_benign():
         res = evaluate(patch)
         bad = {k: v for k, v in res.items() if v['exit'] != 0}
         mp = os.path.join(base, n, 'meta.json')
-        m = json.load(open(mp))
+        m = json.load(open(mp)) if os.path.exists(mp) else {}
         m['checks_not_silent'] = bad
         json.dump(m, open(mp, 'w'), indent=1)
         print(n, 'SILENT' if not bad else 'ALARM ' + ', '.join('%s(exit %d) %s' % (k, v['exit'], v['first'][:160]) for k, v in bad.items()))
@@ -164,7 +164,7 @@ def main():
             if res[own]['exit'] == 1:
                 print('         ', res[own]['first'][:200])
             mp = os.path.join(SEEDED, n, 'meta.json')
-            m = json.load(open(mp))
+            m = json.load(open(mp)) if os.path.exists(mp) else {}
             m['detection'] = {'own_property_exit': res[own]['exit'], 'violated': det, 'undecided': und,
                               'first_report': {k: res[k]['first'] for k in det + und}}
             json.dump(m, open(mp, 'w'), indent=1)
